@@ -9,6 +9,7 @@ import (
 	"strings"
 
 	"verif/mc/drive"
+	"verif/mc/refsem"
 )
 
 type gridPoint struct{ a, b, c int }
@@ -274,6 +275,38 @@ func gridFamilies() []*scaleFam {
 				t, r := g.a, g.b
 				prog := fmt.Sprintf("BEGIN { head = {}; cur = head; for (i = 0; i < %d; i++) { nx = {}; cur.link = nx; cur = nx } first = cur; for (i = 1; i < %d; i++) { nx = {}; cur.link = nx; cur = nx } cur.link = first; print \"built\"; print json(head); print \"after\" }\n", t, r)
 				return scaleCase{Prog: prog, Want: "built\n", Kind: drive.KRuntime, CLIOnly: true}
+			}),
+		gridFam("C07", "an object for-in of a keys around one of b keys around one of 3 keys",
+			grid2([]int{1, 2, 10, 50, 60, 64, 65, 100, 127, 128, 129, 200}, []int{1, 2, 10, 28, 50, 60, 64, 65, 100, 127, 128, 129, 200}, nil),
+			func(g gridPoint) scaleCase {
+				a, b := g.a, g.b
+				prog := fmt.Sprintf("function walk(t, depth, n) { n = 0; for (k, v in t) { n++; if (depth > 0) { n += walk(t, depth - 1) } } return n }\nBEGIN { for (i = 0; i < %d; i++) { o[\"a\" + i] = i } for (i = 0; i < %d; i++) { p[\"b\" + i] = i + 1 } q = {x: 1, y: 2, z: 3}; for (k, u in o) { for (j, v in p) { c++; s += v; for (m, w in q) { d += w } } last = k } print c, s, d, last is string; print walk(p, 1) }\n", a, b)
+				return scaleCase{Prog: prog, Want: fmt.Sprintf("%d %d %d true\n%d\n", a*b, a*tri(b), a*b*6, b+b*b), NoModel: a*b > 20000}
+			}),
+		gridFam("C06", "a chain of a operands one of which holds a chain of b operands",
+			grid2([]int{1, 2, 8, 9, 10, 11, 12, 16, 17, 33}, []int{1, 2, 8, 9, 10, 11, 12, 16, 17, 33}, nil),
+			func(g gridPoint) scaleCase {
+				a, b := g.a, g.b
+				inner := "1000 - " + nums(b, " - ")
+				outer := func(in string, at int) string {
+					return seqs2(a, " + ", func(k int) string {
+						if k == at {
+							return in
+						}
+						return itoa(k)
+					})
+				}
+				mid := (a + 1) / 2
+				prog := "function id(x) { return x }\nBEGIN { t = [5, 6, 7, 8]; print " + outer("("+inner+")", a) + ", " + outer("("+inner+")", mid) + ", " + outer("id("+inner+")", mid) + ", " + outer("t["+nums(b, " - ")+" + "+itoa(tri(b)-2+1)+"]", 1) + ", " + outer("2 * "+nums(b, " * ")+" * 1", mid) + " }\n"
+				iv := 1000 - tri(b)
+				fact := 1.0
+				for k := 1; k <= b; k++ {
+					fact *= float64(k)
+				}
+				tv := 5 + (1 - (tri(b) - 1) + tri(b) - 2 + 1) // t[1 - 2 - ... - b + c] with c chosen so that the index is 0 or 1
+				_ = tv
+				idx := 1 - (tri(b) - 1) + (tri(b) - 2 + 1)
+				return scaleCase{Prog: prog, Want: fmt.Sprintf("%d %d %d %d %s\n", tri(a)-a+iv, tri(a)-mid+iv, tri(a)-mid+iv, tri(a)-1+5+idx, refsem.FormatNum(float64(tri(a)-mid)+2*fact))}
 			}),
 		// ---- histories inside one run that need a size
 		{Prop: "C15", Name: "a sorted copy of n numbers, one element overwritten, then contains", Max: 5000, QMax: 1100, Build: func(n int) scaleCase {
